@@ -48,6 +48,7 @@ func decomposer(m string, K, T uint) dict.Decomposer {
 
 func c09Case(g *Gen, m string, x *big.Int, K, T uint) {
 	before := new(big.Int).Set(x)
+	g.Pending("c09", m, x.String(), fmt.Sprint(K), fmt.Sprint(T))
 	// history: the terms of an earlier decomposition are overwritten by the caller; a second call must
 	// not be affected (no term may be shared storage)
 	var s dict.Sum
